@@ -53,14 +53,27 @@ func parseArgs(s string) (map[string]string, error) {
 		m := strings.Split(arg, "=")
 		switch len(m) {
 		case 2:
-			argMap[strings.ToUpper(m[0])] = m[1]
+			argMap[upperASCII(m[0])] = m[1]
 		case 1:
-			argMap[strings.ToUpper(m[0])] = ""
+			argMap[upperASCII(m[0])] = ""
 		default:
 			return nil, fmt.Errorf("failed to parse arg string: %q", arg)
 		}
 	}
 	return argMap, nil
+}
+
+// upperASCII upper-cases the ASCII letters of s and leaves every other octet
+// alone. An esmtp-keyword is ASCII; strings.ToUpper would also map U+017F
+// and U+0131 to 'S' and 'I' and so turn a non-keyword into a known one.
+func upperASCII(s string) string {
+	b := []byte(s)
+	for i, ch := range b {
+		if 'a' <= ch && ch <= 'z' {
+			b[i] = ch - 'a' + 'A'
+		}
+	}
+	return string(b)
 }
 
 func parseHelloArgument(arg string) (string, error) {
